@@ -33,8 +33,19 @@ fn explore(ctx: &mut Ctx) {
             }
         });
     }
-    // (c) wide values: widths 17..64 with tiny alphabets are not possible (first has 2^w entries), so
-    // only single huge values are out of scope; record the largest width explored.
+    // (c) wide values: `first` has max+1 entries, so widths up to the middle twenties are affordable with
+    // short vectors; beyond that a single value needs gigabytes and is out of scope.
+    let wide: Vec<(usize, usize)> = if ctx.tier.is_thorough() { vec![(17, 3), (20, 3), (22, 3), (24, 2), (26, 1)] } else { vec![(17, 3), (20, 2), (22, 1)] };
+    for &(k, depth) in &wide {
+        let letters: Vec<u64> = vec![0u64, 1, (1 << (k - 1)) - 1, 1 << (k - 1), (1 << k) - 1];
+        enumr::words(letters.len(), depth, |word| {
+            let c = Case { values: word.iter().map(|&x| letters[x]).collect() };
+            if ctx.mine(&c) {
+                ctx.count("wide_alphabet_vectors", 1);
+                check_case(ctx, &c);
+            }
+        });
+    }
 }
 
 fn replay(ctx: &mut Ctx, v: &Value) {
